@@ -139,6 +139,7 @@ func (e *Engine) resetPath(prefix []Decision) {
 	e.byteBacking = nil
 	e.clock = 0
 	e.poolPrivate = nil
+	e.syncMaps = nil
 	e.cellArr = nil
 	e.copyCells = nil
 	e.initRan = map[*ssa.Package]bool{}
